@@ -29,7 +29,13 @@ RULE = (
     'return. Workloads: (1) the hostile workloads of the other property modules re-run with this monitor riding '
     'along, (2) an aliasing grid: entry points called with arguments already in the unit/dtype the function '
     'converts to (so internal copy=False conversions alias), as plain arrays and as slices of '
-    'larger caller-owned arrays, (3) thorough only: the repository test-suite with the monitor armed. '
+    'larger caller-owned arrays, (2b) a value grid: every computational entry point called with caller-owned '
+    'arguments that are NOT in canonical form in every way the code normalises / sorts / clips / wraps / rescales '
+    '(vectors of any length and direction, unsorted / reversed arrays, windows in any order or beyond the data, '
+    'angles beyond one turn, negative frequencies and frequencies in other units, swapped min/max, far-away '
+    'positions, zero / non-finite / masked values), each facet a forced class, each argument as a plain object, as a '
+    'contiguous slice (scalars: a 0-d element) and as a strided slice of a larger caller-owned buffer whose '
+    'fingerprint is compared as well, (3) thorough only: the repository test-suite with the monitor armed. '
     'oracle B (history): for each family of factories/lookups a pristine reference is taken, then ALL sequences '
     'of length <= 3 over {call factory i, mutate the k-th earlier result through its public surface} are '
     'enumerated and after each sequence every factory must still return its pristine value. '
@@ -338,6 +344,1040 @@ def alias_grid(ctx, shard):
         ctx.event('mutation_monitor.judged_calls', mm.judged)
         ctx.event('mutation_monitor.observed_calls', mm.events)
         ctx.extra['functions_armed'] = len(mm.functions)
+    finally:
+        mm.uninstall()
+
+
+# ================================================== oracle A: value axis ===
+# The alias grid above varies unit / dtype / view-ness.  Whether a function writes into an argument can
+# equally depend on the argument's VALUE: code that normalises, sorts, clips, wraps, takes the magnitude of
+# or rescales an input has a branch (or a fast path) for inputs that are already in canonical form, and the
+# write -- if there is one -- only happens for inputs that are not.  This grid calls every computational
+# entry point with caller-owned arguments that are NOT in canonical form in every way the entry point (or a
+# reasonable re-implementation of it) canonicalises: vectors of any length and direction, unsorted and
+# reversed arrays, windows in any order / beyond the data range, angles beyond one turn and negative,
+# negative frequencies and frequencies in other units, swapped min/max, positions far away and in other
+# units, degenerate geometry.  Every argument is handed over once as a plain variable and once as a slice
+# (for scalars: a 0-d element) of a larger caller-owned buffer.  The only expectation is the property
+# itself: whatever the call does (including raising), every caller-owned object is bit-identical afterwards.
+_N = 5
+
+
+def _vec(v, unit='m'):
+    return sc.vector(np.asarray(v, dtype=float), unit=unit)
+
+
+def _vecs(v, unit='m', dim='x'):
+    return sc.vectors(dims=[dim], values=np.asarray(v, dtype=float), unit=unit)
+
+
+def _arr(v, unit, dim='x', dtype='float64'):
+    return sc.array(dims=[dim], values=np.asarray(v), unit=unit, dtype=dtype)
+
+
+def _s(v, unit):
+    return sc.scalar(float(v), unit=unit)
+
+
+def _lay(layout, obj):
+    """obj as a caller-owned plain object, or as a slice / 0-d element of a larger caller-owned buffer."""
+    if layout == 'plain':
+        return obj.copy(), None
+    if obj.ndim == 0:
+        owner = sc.concat([obj, obj, obj], 'rv_buffer').copy()
+        return owner['rv_buffer', 1], owner
+    d = obj.dims[0]
+    if layout == 'strided':  # every second element of a caller-owned buffer twice as long
+        try:
+            rest = [x for x in obj.dims if x != d]
+            owner = sc.concat([obj, obj], 'rv_k').transpose([d, 'rv_k', *rest]).copy().flatten(dims=[d, 'rv_k'], to=d)
+            return owner[d, 0::2], owner
+        except Exception:  # noqa: BLE001  (layout not constructible for this kind of object: contiguous slice)
+            pass
+    pad = sc.concat([obj[d, 0:1], obj[d, 0:1]], d)
+    owner = sc.concat([pad, obj, pad], d).copy()
+    return owner[d, 2:2 + obj.sizes[d]], owner
+
+
+def _scaled_rows(rng, scales):
+    return rng.normal(size=(len(scales), 3)) * np.asarray(scales, dtype=float)[:, None]
+
+
+def _value_cases():  # noqa: C901
+    """[(entry point, non-canonical facet, build(P, A, O, rng) -> thunk)].  ``A(var)`` places a caller-owned
+    Variable / DataArray in the current layout, ``O(obj)`` registers any other caller-owned object."""
+    cases = []
+
+    def case(entry, facet):
+        def deco(f):
+            cases.append((entry, facet, f))
+            return f
+        return deco
+
+    g_std = [0.0, -9.80665, 0.0]
+    gravities = {  # everything the gravity kernels do with `gravity` goes through gravity / |gravity|
+        'gravity-unit-length': [0.0, -1.0, 0.0],
+        'gravity-long': [0.0, -9806.65, 0.0],
+        'gravity-short': [0.0, -1e-3, 0.0],
+        'gravity-off-axis': [-3.0, -9.0, 0.0],   # still orthogonal to a beam along z
+    }
+    far = [1e-3, 1.0, 25.0, 1e3, 1e6]
+
+    # ------------------------------------------------------------ conversion.beamline
+    @case('L1', 'beam-any-length')
+    def _(P, A, O, rng):
+        b = A(_vec([0.3, -0.2, 25.0]))
+        return lambda: P.KB.L1(incident_beam=b)
+
+    @case('L2', 'beams-any-length')
+    def _(P, A, O, rng):
+        b = A(_vecs(_scaled_rows(rng, far)))
+        return lambda: P.KB.L2(scattered_beam=b)
+
+    @case('straight_incident_beam', 'positions-far-apart')
+    def _(P, A, O, rng):
+        src, smp = A(_vec([0.0, 0.0, -25e3], 'mm')), A(_vec([0.1, 0.2, 0.3], 'mm'))
+        return lambda: P.KB.straight_incident_beam(source_position=src, sample_position=smp)
+
+    @case('straight_scattered_beam', 'positions-far-apart')
+    def _(P, A, O, rng):
+        pos, smp = A(_vecs(_scaled_rows(rng, far))), A(_vec([0.1, 0.2, 0.3]))
+        return lambda: P.KB.straight_scattered_beam(position=pos, sample_position=smp)
+
+    @case('total_beam_length', 'lengths-any-magnitude')
+    def _(P, A, O, rng):
+        l1, l2 = A(_s(25.0, 'm')), A(_arr(rng.uniform(0, 1, _N) * far, 'm'))
+        return lambda: P.KB.total_beam_length(L1=l1, L2=l2)
+
+    @case('total_straight_beam_length_no_scatter', 'positions-far-apart')
+    def _(P, A, O, rng):
+        src, pos = A(_vec([0.0, 0.0, -25.0])), A(_vecs(_scaled_rows(rng, far)))
+        return lambda: P.KB.total_straight_beam_length_no_scatter(source_position=src, position=pos)
+
+    @case('two_theta', 'beams-any-length')
+    def _(P, A, O, rng):
+        b1, b2 = A(_vec([0.0, 0.0, 25.0])), A(_vecs(_scaled_rows(rng, far)))
+        return lambda: P.KB.two_theta(incident_beam=b1, scattered_beam=b2)
+
+    @case('two_theta', 'both-beams-arrays')
+    def _(P, A, O, rng):
+        b1, b2 = A(_vecs(_scaled_rows(rng, far[::-1]))), A(_vecs(_scaled_rows(rng, far)))
+        return lambda: P.KB.two_theta(incident_beam=b1, scattered_beam=b2)
+
+    @case('two_theta', 'incident-has-extra-dim')
+    def _(P, A, O, rng):
+        b1, b2 = A(_vecs(_scaled_rows(rng, [3.0, 25.0]), dim='y')), A(_vecs(_scaled_rows(rng, far)))
+        return lambda: P.KB.two_theta(incident_beam=b1, scattered_beam=b2)
+
+    @case('two_theta', 'parallel-and-antiparallel')
+    def _(P, A, O, rng):
+        b1 = A(_vec([0.0, 0.0, 25.0]))
+        b2 = A(_vecs([[0, 0, 3.0], [0, 0, -3.0], [0, 0, 25.0], [0, 1e-12, 7.0], [0, 4.0, 0]]))
+        return lambda: P.KB.two_theta(incident_beam=b1, scattered_beam=b2)
+
+    @case('two_theta', 'beams-in-different-units')
+    def _(P, A, O, rng):
+        b1, b2 = A(_vec([0.0, 0.0, 25e3], 'mm')), A(_vecs(_scaled_rows(rng, far)))
+        return lambda: P.KB.two_theta(incident_beam=b1, scattered_beam=b2)
+
+    for facet, gv in {**gravities, 'gravity-not-orthogonal': [0.0, -9.0, 2.0]}.items():
+        @case('beam_aligned_unit_vectors', facet)
+        def _(P, A, O, rng, gv=gv):
+            b, g = A(_vec([0.0, 0.0, 25.0])), A(_vec(gv, 'm/s^2'))
+            return lambda: P.KB.beam_aligned_unit_vectors(incident_beam=b, gravity=g)
+
+    @case('beam_aligned_unit_vectors', 'beam-parallel-to-gravity')
+    def _(P, A, O, rng):
+        b, g = A(_vec([0.0, -3.0, 0.0])), A(_vec(g_std, 'm/s^2'))
+        return lambda: P.KB.beam_aligned_unit_vectors(incident_beam=b, gravity=g)
+
+    @case('beam_aligned_unit_vectors', 'beam-off-axis-any-length')
+    def _(P, A, O, rng):
+        b, g = A(_vecs([[3e-3, 0, 4e-3], [30.0, 0, -40.0], [1e5, 0.0, 1.0]])), A(_vec(g_std, 'm/s^2'))
+        return lambda: P.KB.beam_aligned_unit_vectors(incident_beam=b, gravity=g)
+
+    def gravity_args(A, rng, gv, beam=(0.0, 0.0, 25.0), dt='float64', scales=far):
+        # wavelength in the internal unit of the kernels (m), so that value x aliasing are crossed
+        return dict(incident_beam=A(_vec(beam)), scattered_beam=A(_vecs(_scaled_rows(rng, scales) + [0, 0, 1e-2])),
+                    wavelength=A(_arr(rng.uniform(1, 10, len(scales)) * 1e-10, 'm', dtype=dt)),
+                    gravity=A(_vec(gv, 'm/s^2')))
+
+    for facet, gv in gravities.items():
+        @case('scattering_angles_with_gravity', facet)
+        def _(P, A, O, rng, gv=gv):
+            kw = gravity_args(A, rng, gv)
+            return lambda: P.KB.scattering_angles_with_gravity(**kw)
+
+        @case('scattering_angle_in_yz_plane', facet)
+        def _(P, A, O, rng, gv=gv):
+            kw = gravity_args(A, rng, gv)
+            return lambda: P.KB.scattering_angle_in_yz_plane(**kw)
+
+    @case('scattering_angles_with_gravity', 'gravity-not-orthogonal-any-length')
+    def _(P, A, O, rng):
+        kw = gravity_args(A, rng, [1.0, -90.0, 20.0], beam=(0.2, 0.1, 0.5), dt='float32')
+        return lambda: P.KB.scattering_angles_with_gravity(**kw)
+
+    @case('scattering_angle_in_yz_plane', 'gravity-not-orthogonal')
+    def _(P, A, O, rng):
+        kw = gravity_args(A, rng, [0.0, -9.0, 2.0])
+        return lambda: P.KB.scattering_angle_in_yz_plane(**kw)
+
+    @case('scattering_angles_with_gravity', 'beam-off-axis-any-length')
+    def _(P, A, O, rng):
+        kw = gravity_args(A, rng, g_std, beam=(-3e3, 0.0, 4e3))
+        return lambda: P.KB.scattering_angles_with_gravity(**kw)
+
+    @case('scattering_angles_with_gravity', 'wavelength-unsorted-zero-negative')
+    def _(P, A, O, rng):
+        kw = gravity_args(A, rng, g_std)
+        kw['wavelength'] = A(_arr([9e-10, 0.0, -2e-10, 5e-10, 1e-10], 'm'))
+        return lambda: P.KB.scattering_angles_with_gravity(**kw)
+
+    @case('scattering_angle_in_yz_plane', 'wavelength-unsorted-zero-negative')
+    def _(P, A, O, rng):
+        kw = gravity_args(A, rng, g_std)
+        kw['wavelength'] = A(_arr([9e-10, 0.0, -2e-10, 5e-10, 1e-10], 'm'))
+        return lambda: P.KB.scattering_angle_in_yz_plane(**kw)
+
+    # ------------------------------------------------------------ conversion.tof
+    def unsorted(rng, lo, hi, extra=()):
+        v = np.concatenate([np.sort(rng.uniform(lo, hi, _N - len(extra)))[::-1], np.asarray(extra, dtype=float)])
+        return v
+
+    angle_oor = [-0.5, 0.0, 3.5, 7.0, 400.0]  # negative, zero, beyond pi, beyond one turn, many turns
+
+    @case('wavelength_from_tof', 'tof-unsorted-zero-negative')
+    def _(P, A, O, rng):
+        tof, L = A(_arr(unsorted(rng, 1e3, 1e4, [0.0, -5.0]), 'us')), A(_arr(unsorted(rng, 1, 100, [0.0]), 'm'))
+        return lambda: P.KT.wavelength_from_tof(tof=tof, Ltotal=L)
+
+    @case('energy_from_tof', 'tof-unsorted-zero-negative')
+    def _(P, A, O, rng):
+        tof, L = A(_arr(unsorted(rng, 1e3, 1e4, [0.0, -5.0]), 'us')), A(_arr(unsorted(rng, 1, 100, [0.0]), 'm'))
+        return lambda: P.KT.energy_from_tof(tof=tof, Ltotal=L)
+
+    @case('dspacing_from_tof', 'two_theta-out-of-range')
+    def _(P, A, O, rng):
+        tof, L = A(_arr(unsorted(rng, 1e3, 1e4), 'us')), A(_s(25.0, 'm'))
+        tt = A(_arr(angle_oor, 'rad'))
+        return lambda: P.KT.dspacing_from_tof(tof=tof, Ltotal=L, two_theta=tt)
+
+    for mode, ekey in (('direct', 'incident_energy'), ('indirect', 'final_energy')):
+        @case(f'energy_transfer_{mode}_from_tof', 'tof-below-and-above-t0')
+        def _(P, A, O, rng, mode=mode, ekey=ekey):
+            # t0 for 10 m at 15 meV is about 5.9 ms: both sides of the threshold, unsorted
+            tof = A(_arr([2e4, 1e2, 5.9e3, 0.0, 9e3], 'us'))
+            l1, l2, e = A(_s(10.0, 'm')), A(_arr(unsorted(rng, 9, 11), 'm')), A(_s(15.0, 'meV'))
+            f = getattr(P.KT, f'energy_transfer_{mode}_from_tof')
+            return lambda: f(tof=tof, L1=l1, L2=l2, **{ekey: e})
+
+    @case('energy_from_wavelength', 'wavelength-unsorted-zero-negative')
+    def _(P, A, O, rng):
+        lam = A(_arr(unsorted(rng, 1, 10, [0.0, -2.0]), 'angstrom'))
+        return lambda: P.KT.energy_from_wavelength(wavelength=lam)
+
+    @case('wavelength_from_energy', 'energy-unsorted-zero-negative')
+    def _(P, A, O, rng):
+        en = A(_arr(unsorted(rng, 1, 100, [0.0, -2.0]), 'meV'))
+        return lambda: P.KT.wavelength_from_energy(energy=en)
+
+    for name, arg, unit in (('Q_from_wavelength', 'wavelength', 'angstrom'), ('wavelength_from_Q', 'Q', '1/angstrom'),
+                            ('dspacing_from_wavelength', 'wavelength', 'angstrom'),
+                            ('dspacing_from_energy', 'energy', 'meV')):
+        @case(name, 'two_theta-out-of-range')
+        def _(P, A, O, rng, name=name, arg=arg, unit=unit):
+            x, tt = A(_arr(unsorted(rng, 1, 10), unit)), A(_arr(angle_oor, 'rad'))
+            return lambda: getattr(P.KT, name)(**{arg: x}, two_theta=tt)
+
+    @case('Q_elements_from_wavelength', 'beams-any-length')
+    def _(P, A, O, rng):
+        lam = A(_arr(unsorted(rng, 1, 10), 'angstrom'))
+        b1, b2 = A(_vec([0.0, 0.0, 25.0])), A(_vecs(_scaled_rows(rng, far)))
+        return lambda: P.KT.Q_elements_from_wavelength(wavelength=lam, incident_beam=b1, scattered_beam=b2)
+
+    @case('Q_vec_from_Q_elements', 'components-any-magnitude')
+    def _(P, A, O, rng):
+        q = [A(_arr(rng.normal(size=_N) * far, '1/angstrom')) for _ in range(3)]
+        return lambda: P.KT.Q_vec_from_Q_elements(Qx=q[0], Qy=q[1], Qz=q[2])
+
+    def sheared(rng):
+        return np.eye(3) * [2.0, 0.5, 30.0] + rng.normal(size=(3, 3)) * 0.3
+
+    @case('ub_matrix_from_u_and_b', 'u-not-orthonormal')
+    def _(P, A, O, rng):
+        u = A(sc.spatial.linear_transform(value=sheared(rng)))
+        b = A(sc.spatial.linear_transform(value=sheared(rng), unit='1/angstrom'))
+        return lambda: P.KT.ub_matrix_from_u_and_b(u_matrix=u, b_matrix=b)
+
+    @case('hkl_vec_from_Q_vec', 'rotation-not-orthonormal')
+    def _(P, A, O, rng):
+        q = A(_vecs(_scaled_rows(rng, far), '1/angstrom'))
+        ub = A(sc.spatial.linear_transform(value=sheared(rng), unit='1/angstrom'))
+        rot = A(sc.spatial.linear_transform(value=sheared(rng)))
+        return lambda: P.KT.hkl_vec_from_Q_vec(Q_vec=q, ub_matrix=ub, sample_rotation=rot)
+
+    @case('hkl_vec_from_Q_vec', 'rotation-quaternion-any-angle')
+    def _(P, A, O, rng):
+        q = A(_vecs(_scaled_rows(rng, far), '1/angstrom'))
+        ub = A(sc.spatial.linear_transform(value=sheared(rng), unit='1/angstrom'))
+        rot = A(sc.spatial.rotations_from_rotvecs(_vec([0.0, 7.5, -0.2], 'rad')))  # more than one turn
+        return lambda: P.KT.hkl_vec_from_Q_vec(Q_vec=q, ub_matrix=ub, sample_rotation=rot)
+
+    @case('hkl_elements_from_hkl_vec', 'components-any-magnitude')
+    def _(P, A, O, rng):
+        hkl = A(_vecs(_scaled_rows(rng, far), 'one'))
+        return lambda: P.KT.hkl_elements_from_hkl_vec(hkl_vec=hkl)
+
+    @case('time_at_sample_from_tof', 'tof-unsorted-zero-negative')
+    def _(P, A, O, rng):
+        pt = A(_arr(np.arange(_N)[::-1] * 0.071 + 1e6, 's'))
+        tof = A(_arr([0.07, 0.0, -5e-9, 3e-3, 1e-8], 's'))
+        l2, lam = A(_arr(unsorted(rng, 1, 100, [0.0]), 'm')), A(_arr(unsorted(rng, 1, 10, [0.0]), 'angstrom'))
+        return lambda: P.KT.time_at_sample_from_tof(pulse_time=pt, tof=tof, L2=l2, wavelength=lam)
+
+    # ------------------------------------------------------------ chopper.DiskChopper
+    slit_sets = {  # (begin, end) in deg: the docs allow any order; slits live on a circle
+        'slits-unsorted': ([200.0, 10.0, 100.0], [250.0, 60.0, 150.0]),
+        'slits-beyond-one-turn': ([350.0, 380.0, 460.0], [370.0, 440.0, 500.0]),
+        'slits-negative': ([-90.0, -20.0, 60.0], [-40.0, 10.0, 120.0]),
+        'slits-many-turns': ([3600.0 + 10.0, 720.0 + 100.0], [3600.0 + 60.0, 720.0 + 150.0]),
+    }
+
+    def disk(P, A, begin, end, unit='deg', f=14.0, funit='Hz', phase=(0.5, 'rad'), beam=(0.0, 'rad'),
+             axle=(0.0, 0.0, 8.0), **extra):
+        conv = (lambda v: np.deg2rad(v)) if unit == 'rad' else (lambda v: np.asarray(v, dtype=float))
+        return P.DiskChopper(
+            axle_position=A(_vec(axle)), frequency=A(_s(f, funit)), beam_position=A(_s(*beam)), phase=A(_s(*phase)),
+            slit_begin=A(_arr(conv(begin), unit, dim='slit')), slit_end=A(_arr(conv(end), unit, dim='slit')), **extra)
+
+    for facet, (b, e) in slit_sets.items():
+        for unit in ('deg', 'rad'):
+            @case('DiskChopper', f'{facet}[{unit}]')
+            def _(P, A, O, rng, b=b, e=e, unit=unit):
+                def f():
+                    dc = disk(P, A, b, e, unit=unit, f=-28.0, slit_height=A(_arr(rng.uniform(1, 5, len(b)), 'cm', dim='slit')),
+                              radius=A(_s(35.0, 'cm')))
+                    pf = A(_s(14.0, 'Hz'))
+                    dc.time_offset_open(pulse_frequency=pf)
+                    dc.time_offset_close(pulse_frequency=pf)
+                    dc.open_duration(pulse_frequency=pf)
+                    dc.make_svg()
+                return f
+
+    @case('DiskChopper', 'slits-overlapping')
+    def _(P, A, O, rng):
+        return lambda: disk(P, A, [10.0, 350.0], [60.0, 380.0])
+
+    @case('DiskChopper', 'slits-inverted')
+    def _(P, A, O, rng):
+        return lambda: disk(P, A, [60.0, 100.0], [10.0, 150.0])
+
+    freqs = {  # chopper frequency, unit, pulse frequency, unit
+        'frequency-negative': (-14.0, 'Hz', 14.0, 'Hz'),
+        'frequency-multiple-of-pulse': (56.0, 'Hz', 14.0, 'Hz'),
+        'frequency-fraction-of-pulse': (-7.0, 'Hz', 14.0, 'Hz'),
+        'frequency-per-minute': (-840.0, '1/min', 14.0, 'Hz'),
+        'pulse-frequency-other-unit': (28.0, 'Hz', 0.014, 'kHz'),
+        'frequencies-out-of-phase': (15.0, 'Hz', 14.0, 'Hz'),
+        'pulse-frequency-negative': (14.0, 'Hz', -14.0, 'Hz'),
+    }
+    for facet, (f, fu, pf, pfu) in freqs.items():
+        for meth in ('time_offset_open', 'time_offset_close', 'open_duration'):
+            @case(f'DiskChopper.{meth}', facet)
+            def _(P, A, O, rng, f=f, fu=fu, pf=pf, pfu=pfu, meth=meth):
+                dc = O(disk(P, A, *slit_sets['slits-unsorted'], f=f, funit=fu, phase=(-400.0, 'deg'), beam=(7.0, 'rad')))
+                p = A(_s(pf, pfu))
+                return lambda: getattr(dc, meth)(pulse_frequency=p)
+
+        @case('Chopper.from_disk_chopper', facet)
+        def _(P, A, O, rng, f=f, fu=fu, pf=pf, pfu=pfu):
+            dc = O(disk(P, A, *slit_sets['slits-beyond-one-turn'], unit='rad', f=f, funit=fu, phase=(-7.0, 'rad'),
+                        axle=(3.0, -4.0, 12.0)))
+            p = A(_s(pf, pfu))
+            return lambda: P.CC.Chopper.from_disk_chopper(dc, pulse_frequency=p, npulses=3)
+
+    for facet, mk in {
+        'angle-beyond-one-turn[rad]': lambda: _arr([7.0, -0.5, 100.0, 0.0, 3.0], 'rad', dim='slit'),
+        'angle-beyond-one-turn[deg]': lambda: _arr([400.0, -30.0, 7200.0, 0.0, 90.0], 'deg', dim='slit'),
+        'angle-scalar': lambda: _s(-7.0, 'rad'),
+        'angle-2d-unsorted': lambda: sc.array(dims=['k', 'slit'], values=[[3.0, 1.0, 2.0], [9.0, -8.0, 0.5]], unit='rad'),
+    }.items():
+        for f in (14.0, -14.0):
+            @case('DiskChopper.time_offset_angle_at_beam', f'{facet},{"clockwise" if f < 0 else "anticlockwise"}')
+            def _(P, A, O, rng, mk=mk, f=f):
+                dc = O(disk(P, A, *slit_sets['slits-negative'], f=f))
+                ang = A(mk())
+                return lambda: dc.time_offset_angle_at_beam(angle=ang, n_repetitions=3)
+
+    @case('DiskChopper.from_nexus', 'slit_edges-interleaved-unsorted')
+    def _(P, A, O, rng):
+        dg = O({'position': A(_vec([0.0, 0.0, 8.0])), 'rotation_speed': A(_s(-14.0, 'Hz')),
+                'beam_position': A(_s(400.0, 'deg')), 'phase': A(_s(-30.0, 'deg')),
+                'slit_edges': A(_arr([200.0, 250.0, 10.0, 60.0, 430.0, 440.0], 'deg', dim='slit')),
+                'slit_height': A(_s(3.0, 'cm')), 'radius': A(_s(35.0, 'cm'))})
+        return lambda: P.DiskChopper.from_nexus(dg)
+
+    @case('extract_chopper_from_nexus', 'logs-unsorted')
+    def _(P, A, O, rng):
+        t = sc.datetimes(dims=['time'], values=np.array([5, 1, 3, 2]) * 10**9, unit='ns')
+        log = sc.DataArray(_arr([14.0, -14.0, 13.9, 14.1], 'Hz', dim='time'), coords={'time': t})
+        dg = O(sc.DataGroup({'position': A(_vec([0.0, 0.0, 8.0])),
+                             'rotation_speed': sc.DataGroup({'value': A(log)}),
+                             'top_dead_center': sc.DataGroup({'time': A(t)}),
+                             'slit_edges': A(_arr([200.0, 250.0, 10.0, 60.0], 'deg', dim='slit'))}))
+        return lambda: P.extract_chopper_from_nexus(dg)
+
+    # ------------------------------------------------------------ chopper.filtering
+    def signal(rng, order, unit='Hz', tunit='s'):
+        lvl = np.repeat([1.0, 5.0, -2.0, -2.0, 7.0], 10) + rng.normal(size=50) * 1e-4
+        t = np.arange(50.0)
+        return sc.DataArray(_arr(lvl[order], unit, dim='time'), coords={'time': _arr(t[order], tunit, dim='time')})
+
+    @case('find_plateaus', 'time-unsorted')
+    def _(P, A, O, rng):
+        sig, atol = A(signal(rng, rng.permutation(50))), A(_s(0.01, 'Hz/s'))
+        return lambda: P.filtering.find_plateaus(sig, atol=atol, min_n_points=3)
+
+    @case('find_plateaus', 'time-descending')
+    def _(P, A, O, rng):
+        sig, atol = A(signal(rng, np.arange(50)[::-1])), A(_s(0.01, 'Hz/s'))
+        return lambda: P.filtering.find_plateaus(sig, atol=atol, min_n_points=3)
+
+    @case('find_plateaus', 'atol-other-unit-and-variable-min-points')
+    def _(P, A, O, rng):
+        sig, atol = A(signal(rng, np.arange(50))), A(_s(0.6, '1/(s*min)'))
+        npts = A(sc.scalar(3, unit=None))
+        return lambda: P.filtering.find_plateaus(sig, atol=atol, min_n_points=npts)
+
+    def plateaus(P, rng):
+        return P.filtering.find_plateaus(signal(rng, np.arange(50)), atol=_s(0.01, 'Hz/s'), min_n_points=3)
+
+    @case('collapse_plateaus', 'negative-and-repeated-levels')
+    def _(P, A, O, rng):
+        pl = A(plateaus(P, rng))
+        return lambda: P.filtering.collapse_plateaus(pl)
+
+    for facet, ref in {'reference-per-minute': (60.0, '1/min'), 'reference-negative': (-1.0, 'Hz'),
+                       'reference-larger-than-data': (14.0, 'Hz')}.items():
+        @case('filter_in_phase', facet)
+        def _(P, A, O, rng, ref=ref):
+            fr = A(P.filtering.collapse_plateaus(plateaus(P, rng)))
+            r, rtol = A(_s(*ref)), A(sc.scalar(0.05))
+            return lambda: P.filtering.filter_in_phase(fr, reference=r, rtol=rtol)
+
+    # ------------------------------------------------------------ tof.chopper_cascade
+    @case('propagate_times', 'distance-negative-range-other-unit')
+    def _(P, A, O, rng):
+        t, w = A(_arr(unsorted(rng, 0, 3e-3, [-1e-3]), 's', dim='vertex')), A(_arr(unsorted(rng, 1, 10, [0.0]), 'angstrom', dim='vertex'))
+        d = A(_arr([30e3, -5e3, 0.0], 'mm', dim='distance'))
+        return lambda: P.CC.propagate_times(t, w, d)
+
+    vertex_orders = {  # the same rectangle, the walk starting anywhere and in either sense
+        'vertices-clockwise': ([0.0, 0.0, 3e-3, 3e-3], [1.0, 8.0, 8.0, 1.0]),
+        'vertices-start-at-max': ([3e-3, 0.0, 0.0, 3e-3], [8.0, 8.0, 1.0, 1.0]),
+    }
+    chopper_sets = {  # (distance, unit, open, close): windows in any order, overlapping, inverted, outside
+        'windows-unsorted': (8.0, 'm', [15e-3, 5e-3, 40e-3], [20e-3, 9e-3, 45e-3]),
+        'windows-overlapping': (8.0, 'm', [5e-3, 7e-3], [9e-3, 12e-3]),
+        'windows-inverted': (8.0, 'm', [9e-3, 20e-3], [5e-3, 15e-3]),
+        'windows-negative-and-far': (8.0, 'm', [-5e-3, 5.0], [-1e-3, 6.0]),
+        'distance-other-unit': (8000.0, 'mm', [5e-3, 15e-3], [9e-3, 20e-3]),
+        'distance-equal-to-frame': (0.0, 'm', [1e-3, 2.5e-3], [2e-3, 4e-3]),
+        'distance-before-frame': (-2.0, 'm', [1e-3], [2e-3]),
+    }
+
+    def frame(P, A, order='vertices-clockwise'):
+        t, w = vertex_orders[order]
+        return P.CC.Frame(distance=A(_s(0.0, 'm')),
+                          subframes=[P.CC.Subframe(time=A(_arr(t, 's', dim='vertex')),
+                                                   wavelength=A(_arr(w, 'angstrom', dim='vertex')))])
+
+    def chopper(P, A, d, du, o, c):
+        return P.CC.Chopper(distance=A(_s(d, du)), time_open=A(_arr(o, 's', dim='cutout')),
+                            time_close=A(_arr(c, 's', dim='cutout')))
+
+    for facet, spec in chopper_sets.items():
+        @case('Frame.chop', facet)
+        def _(P, A, O, rng, spec=spec):
+            fr, ch = O(frame(P, A)), O(chopper(P, A, *spec))
+            return lambda: fr.chop(ch)
+
+    for facet in vertex_orders:
+        @case('Frame.chop', facet)
+        def _(P, A, O, rng, facet=facet):
+            fr, ch = O(frame(P, A, facet)), O(chopper(P, A, *chopper_sets['windows-unsorted']))
+            return lambda: fr.chop(ch)
+
+        @case('Frame.bounds+subbounds', facet)
+        def _(P, A, O, rng, facet=facet):
+            fr = O(frame(P, A, facet).chop(chopper(P, A, *chopper_sets['windows-unsorted'])))
+            return lambda: (fr.bounds(), fr.subbounds())
+
+    @case('Frame.bounds+subbounds', 'subframe-irregular')
+    def _(P, A, O, rng):
+        fr = O(P.CC.Frame(distance=A(_s(0.0, 'm')), subframes=[P.CC.Subframe(
+            time=A(_arr([3e-3, 0.0, 1e-3, 2e-3], 's', dim='vertex')),
+            wavelength=A(_arr([1.0, 8.0, 9.0, 0.5], 'angstrom', dim='vertex')))]))
+        return lambda: (fr.bounds(), fr.subbounds())
+
+    @case('Frame.propagate_to', 'distance-backwards-other-unit')
+    def _(P, A, O, rng):
+        fr, d = O(frame(P, A, 'vertices-start-at-max')), A(_s(-2500.0, 'mm'))
+        return lambda: fr.propagate_to(d)
+
+    def source(P, A, swapped=False, units=('s', 'angstrom')):
+        tmin, tmax, wmin, wmax = 0.0, 3e-3, 1.0, 8.0
+        ts = 1e3 if units[0] == 'ms' else 1.0
+        ws = 0.1 if units[1] == 'nm' else 1.0
+        if swapped:
+            tmin, tmax, wmin, wmax = tmax, tmin, wmax, wmin
+        return dict(time_min=A(_s(tmin * ts, units[0])), time_max=A(_s(tmax * ts, units[0])),
+                    wavelength_min=A(_s(wmin * ws, units[1])), wavelength_max=A(_s(wmax * ws, units[1])))
+
+    @case('FrameSequence.from_source_pulse', 'min-max-swapped')
+    def _(P, A, O, rng):
+        kw = source(P, A, swapped=True)
+        return lambda: P.CC.FrameSequence.from_source_pulse(**kw)
+
+    @case('FrameSequence.from_source_pulse', 'other-units')
+    def _(P, A, O, rng):
+        kw = source(P, A, units=('ms', 'nm'))
+        return lambda: P.CC.FrameSequence.from_source_pulse(**kw)
+
+    @case('FrameSequence.chop', 'choppers-not-sorted-by-distance')
+    def _(P, A, O, rng):
+        fs = O(P.CC.FrameSequence.from_source_pulse(**source(P, A)))
+        chs = O([chopper(P, A, 15.0, 'm', [30e-3, 10e-3], [40e-3, 20e-3]),
+                 chopper(P, A, 8.0, 'm', [15e-3, 5e-3], [20e-3, 9e-3]),
+                 chopper(P, A, 8.0, 'm', [5e-3], [30e-3]),
+                 chopper(P, A, 11.0, 'm', [5e-3], [30e-3])])
+        return lambda: fs.chop(chs)
+
+    @case('FrameSequence.chop', 'choppers-not-sorted-distances-in-different-units')
+    def _(P, A, O, rng):
+        fs = O(P.CC.FrameSequence.from_source_pulse(**source(P, A)))
+        chs = O([chopper(P, A, 15.0, 'm', [30e-3, 10e-3], [40e-3, 20e-3]),
+                 chopper(P, A, 8000.0, 'mm', [15e-3, 5e-3], [20e-3, 9e-3])])
+        return lambda: fs.chop(chs)
+
+    @case('FrameSequence.chop', 'choppers-as-tuple-in-reverse')
+    def _(P, A, O, rng):
+        fs = O(P.CC.FrameSequence.from_source_pulse(**source(P, A, swapped=True)))
+        chs = O((chopper(P, A, 15.0, 'm', [10e-3], [20e-3]), chopper(P, A, 8.0, 'm', [5e-3], [9e-3])))
+        return lambda: fs.chop(chs)
+
+    for facet, d in {'distance-other-unit': (12e3, 'mm'), 'distance-before-source': (-1.0, 'm'),
+                     'distance-far-beyond': (1e6, 'm'), 'distance-at-chopper': (8.0, 'm')}.items():
+        @case('FrameSequence.__getitem__', facet)
+        def _(P, A, O, rng, d=d):
+            fs = O(P.CC.FrameSequence.from_source_pulse(**source(P, A)).chop(
+                [chopper(P, A, 15.0, 'm', [10e-3], [20e-3]), chopper(P, A, 8.0, 'm', [5e-3], [9e-3])]))
+            dist = A(_s(*d))
+            return lambda: fs[dist]
+
+        @case('FrameSequence.propagate_to', facet)
+        def _(P, A, O, rng, d=d):
+            fs = O(P.CC.FrameSequence.from_source_pulse(**source(P, A)).chop(
+                [chopper(P, A, 8.0, 'm', [15e-3, 5e-3], [20e-3, 9e-3])]))
+            dist = A(_s(*d))
+            return lambda: fs.propagate_to(dist)
+
+    # ------------------------------------------------------------ peaks
+    def spectrum(rng, order=None, nan=False):
+        x = np.linspace(0.0, 10.0, 120)
+        y = 5 * np.exp(-((x - 4.0) / 0.3) ** 2) + 3 * np.exp(-((x - 6.5) / 0.25) ** 2) + 1.0 + rng.normal(size=120) * 0.05
+        if nan:
+            y[[7, 50]] = np.nan
+        if order is not None:
+            x, y = x[order], y[order]
+        da = sc.DataArray(_arr(y, 'one'), coords={'x': _arr(x, 'angstrom')})
+        da.variances = np.full(120, 0.05 ** 2)
+        return da
+
+    def win2d(rows, unit='angstrom'):
+        return sc.array(dims=['x', 'range'], values=np.asarray(rows, dtype=float), unit=unit)
+
+    fit_sets = {  # peak estimates, windows
+        'windows-2d-beyond-data-range': ([4.0, 6.5], win2d([[-50.0, 5.0], [5.5, 1e3]])),
+        'windows-2d-overlapping-unsorted': ([6.5, 4.0], win2d([[3.0, 9.0], [1.0, 7.0]])),
+        'windows-2d-inverted': ([4.0, 6.5], win2d([[5.0, 3.0], [7.5, 5.5]])),
+        'windows-2d-other-unit': ([4.0, 6.5], win2d([[0.3, 0.5], [0.55, 0.75]], 'nm')),
+        'window-scalar-wider-than-data': ([4.0, 6.5], _s(500.0, 'angstrom')),
+        'window-scalar-other-unit': ([4.0, 6.5], _s(0.2, 'nm')),
+        'window-scalar-zero': ([4.0, 6.5], _s(0.0, 'angstrom')),
+        'estimates-outside-data-range': ([-3.0, 4.0, 6.5, 40.0], _s(2.0, 'angstrom')),
+        'estimates-unsorted': ([6.5, 4.0], _s(2.0, 'angstrom')),
+        'estimates-closer-than-window': ([4.0, 4.2, 6.5], _s(3.0, 'angstrom')),
+    }
+    for facet, (est, win) in fit_sets.items():
+        @case('fit_peaks', facet)
+        def _(P, A, O, rng, est=est, win=win):
+            da, e, w = A(spectrum(rng)), A(_arr(est, 'angstrom')), A(win)
+            return lambda: P.peaks.fit_peaks(da, peak_estimates=e, windows=w, background='linear', peak='gaussian')
+
+    for facet, kw in {'coordinate-descending': dict(order=np.arange(120)[::-1]), 'data-with-nan': dict(nan=True)}.items():
+        @case('fit_peaks', facet)
+        def _(P, A, O, rng, kw=kw):
+            da, e, w = A(spectrum(rng, **kw)), A(_arr([4.0, 6.5], 'angstrom')), A(_s(2.0, 'angstrom'))
+            return lambda: P.peaks.fit_peaks(da, peak_estimates=e, windows=w, background=['linear', 'quadratic'],
+                                             peak=['lorentzian', 'gaussian'])
+
+    for facet in ('windows-2d-beyond-data-range', 'windows-2d-overlapping-unsorted'):
+        @case('remove_peaks', facet)
+        def _(P, A, O, rng, facet=facet):
+            est, win = fit_sets[facet]
+            da = spectrum(rng)
+            res = O(P.peaks.fit_peaks(da, peak_estimates=_arr(est, 'angstrom'), windows=win.copy(), background='linear',
+                                      peak='gaussian'))
+            nv = A(sc.DataArray(sc.values(da.data), coords={'x': da.coords['x']}))
+            return lambda: P.peaks.remove_peaks(nv, res)
+
+    @case('FitResult.eval', 'x-unsorted-beyond-window')
+    def _(P, A, O, rng):
+        est, win = fit_sets['windows-2d-beyond-data-range']
+        res = O(P.peaks.fit_peaks(spectrum(rng), peak_estimates=_arr(est, 'angstrom'), windows=win.copy(),
+                                  background='linear', peak='gaussian'))
+        x = A(_arr(unsorted(rng, -50, 50), 'angstrom'))
+        return lambda: [(r.eval_model(x), r.eval_peak(x), r.report()) for r in res]
+
+    for mname in ('GaussianModel', 'LorentzianModel', 'PseudoVoigtModel'):
+        @case(f'{mname}.__call__', 'x-unsorted-scale-negative')
+        def _(P, A, O, rng, mname=mname):
+            m = O(getattr(P.peaks.model, mname)(prefix='p_'))
+            x = A(_arr(unsorted(rng, -5, 15, [4.0]), 'angstrom'))
+            pr = {'p_amplitude': A(sc.scalar(-2.0)), 'p_loc': A(_s(4.0, 'angstrom')), 'p_scale': A(_s(-0.3, 'angstrom'))}
+            if 'p_fraction' in m.param_names:
+                pr['p_fraction'] = A(sc.scalar(1.7))
+            pr = O(pr)
+            return lambda: (m(x, **pr), m.fwhm(pr))
+
+        @case(f'{mname}.guess', 'data-unsorted')
+        def _(P, A, O, rng, mname=mname):
+            m = O(getattr(P.peaks.model, mname)(prefix='p_'))
+            da = A(spectrum(rng, order=rng.permutation(120)))
+            return lambda: m.guess(da)
+
+    @case('PolynomialModel', 'x-unsorted-negative')
+    def _(P, A, O, rng):
+        m = O(P.peaks.model.PolynomialModel(degree=2, prefix='b_'))
+        x = A(_arr(unsorted(rng, -5, 15, [0.0]), 'angstrom'))
+        pr = O({'b_a0': A(_s(-1.0, '1/angstrom')), 'b_a1': A(_s(0.0, '1/angstrom^2')), 'b_a2': A(_s(1e6, '1/angstrom^3'))})
+        da = A(spectrum(rng, order=rng.permutation(120)))
+        return lambda: (m(x, **pr), m.guess(da))
+
+    # ------------------------------------------------------------ absorption
+    axes = {  # symmetry line of the cylinder: the quadrature is rotated from z onto it
+        'axis-y': [0.0, 1.0, 0.0], 'axis-z': [0.0, 0.0, 1.0], 'axis-minus-z': [0.0, 0.0, -1.0],
+        'axis-tilted': [0.6, 0.0, 0.8], 'axis-not-normalised': [0.0, 3.0, 4.0],
+    }
+    beams = {  # beam_direction: documented as a direction, i.e. any length
+        'beam-length-25': [0.0, 0.0, 25.0], 'beam-length-1e-3': [0.0, 0.0, 1e-3],
+        'beam-off-axis-any-length': [0.3, -0.2, 2.0], 'beam-nearly-unit': [0.0, 0.0, 1.0 + 1e-4],
+        'beam-along-cylinder-axis': [0.0, 7.0, 0.0], 'beam-reversed': [0.0, 0.0, -1.0],
+    }
+
+    def cylinder(P, A, axis='axis-y', unit='cm'):
+        k = 1.0 if unit == 'cm' else 10.0
+        return P.Cylinder(symmetry_line=A(_vec(axes[axis], 'one')), center_of_base=A(_vec([0.0, -0.5 * k, 0.0], unit)),
+                          radius=A(_s(0.5 * k, unit)), height=A(_s(1.0 * k, unit)))
+
+    def material(P, A):
+        return P.Material(scattering_params=P.ScatteringParams.for_isotope('V'),
+                          effective_sample_number_density=A(_s(0.07, '1/angstrom^3')))
+
+    def transmission(P, A, O, rng, axis='axis-y', beam=(0.0, 0.0, 1.0), det=None, wl=None, cunit='cm'):
+        cyl, mat = O(cylinder(P, A, axis, cunit)), O(material(P, A))
+        b = A(_vec(beam, 'one'))
+        w = A(wl if wl is not None else sc.linspace('wavelength', 0.5, 5.0, 3, unit='angstrom'))
+        d = A(det if det is not None else _vecs(rng.normal(size=(4, 3)) * 100, 'cm'))
+        return lambda: P.compute_transmission_map(cyl, mat, beam_direction=b, wavelength=w, detector_position=d,
+                                                  quadrature_kind='cheap')
+
+    for facet, bv in beams.items():
+        @case('compute_transmission_map', facet)
+        def _(P, A, O, rng, bv=bv):
+            return transmission(P, A, O, rng, beam=bv)
+
+    @case('compute_transmission_map', 'beam-from-positions')
+    def _(P, A, O, rng):
+        src, smp = _vec([0.0, 0.0, -25.0], 'one'), _vec([0.0, 0.0, 0.0], 'one')
+        return transmission(P, A, O, rng, beam=(smp - src).value)
+
+    for facet in axes:
+        @case('compute_transmission_map', facet)
+        def _(P, A, O, rng, facet=facet):
+            return transmission(P, A, O, rng, axis=facet, beam=(0.0, 0.1, 3.0))
+
+    for facet, mk in {
+        'detectors-far-away': lambda rng: _vecs(_scaled_rows(rng, [1e3, 1e6, 1e9, 1e12]), 'cm'),
+        'detectors-inside-sample-other-unit': lambda rng: _vecs(rng.normal(size=(4, 3)) * 1e-3, 'm'),
+        'detectors-2d': lambda rng: sc.vectors(dims=['x', 'y'], values=rng.normal(size=(2, 3, 3)) * 50, unit='cm'),
+    }.items():
+        @case('compute_transmission_map', facet)
+        def _(P, A, O, rng, mk=mk):
+            return transmission(P, A, O, rng, beam=(0.0, 0.0, 25.0), det=mk(rng))
+
+    for facet, wl in {'wavelength-unsorted-zero-negative': _arr([5.0, 0.0, -1.0, 2.0], 'angstrom', dim='wavelength'),
+                      'wavelength-other-unit': _arr([0.5, 0.05, 0.2], 'nm', dim='wavelength')}.items():
+        @case('compute_transmission_map', facet)
+        def _(P, A, O, rng, wl=wl):
+            return transmission(P, A, O, rng, beam=(0.0, 0.0, 25.0), wl=wl, cunit='mm')
+
+    for facet, mk in {
+        'direction-any-length': lambda rng: _vecs(_scaled_rows(rng, far), 'one'),
+        'direction-parallel-and-perpendicular-to-axis': lambda rng: _vecs(
+            [[0, 5.0, 0], [0, -1e-3, 0], [2.0, 0, 0], [0, 0, -3.0], [1e-9, 1.0, 0]], 'one'),
+    }.items():
+        @case('Cylinder.beam_intersection', facet)
+        def _(P, A, O, rng, mk=mk):
+            cyl = O(cylinder(P, A, 'axis-y'))
+            start = A(_vecs(_scaled_rows(rng, [1e-3, 0.1, 0.3, 5.0, 1e3]), 'cm'))
+            direction = A(mk(rng))
+            return lambda: cyl.beam_intersection(start, direction)
+
+    for facet in axes:
+        @case('Cylinder.quadrature', facet)
+        def _(P, A, O, rng, facet=facet):
+            cyl = O(cylinder(P, A, facet, 'mm'))
+            return lambda: (cyl.quadrature('cheap'), cyl.quadrature('medium'), cyl.center, cyl.volume)
+
+    @case('Material.attenuation_coefficient', 'wavelength-unsorted-other-unit')
+    def _(P, A, O, rng):
+        mat, wl = O(material(P, A)), A(_arr([0.5, 0.0, -0.1, 0.05], 'nm', dim='wavelength'))
+        return lambda: mat.attenuation_coefficient(wl)
+
+    # ------------------------------------------------------------ io
+    def powder(rng, coord='tof', unit='us', order=None, scale=1.0):
+        nn = 6
+        x = np.linspace(1.0, 9.0, nn) * scale
+        y = rng.random(nn) - 0.3
+        if order is not None:
+            x, y = x[order], y[order]
+        v = rng.random(nn) * 0.01
+        v[0] = 0.0
+        return sc.DataArray(sc.array(dims=[coord], values=y, variances=v), coords={coord: _arr(x, unit, dim=coord)})
+
+    for facet, kw in {'coordinate-unsorted-negative-intensity': dict(order=[3, 0, 5, 1, 4, 2]),
+                      'coordinate-descending-dspacing': dict(coord='dspacing', unit='angstrom', order=[5, 4, 3, 2, 1, 0]),
+                      'coordinate-huge': dict(scale=1e12)}.items():
+        @case('CIF.with_reduced_powder_data+save', facet)
+        def _(P, A, O, rng, kw=kw):
+            da = A(powder(rng, **kw))
+            return lambda: P.cif.CIF('a').with_reduced_powder_data(da, comment='c').save(io.StringIO())
+
+        @case('save_xye', facet)
+        def _(P, A, O, rng, kw=kw):
+            da = A(powder(rng, **kw))
+            return lambda: P.save_xye(io.StringIO(), da)
+
+    @case('CIF.with_powder_calibration+save', 'powers-unsorted-repeated')
+    def _(P, A, O, rng):
+        cal = A(sc.DataArray(sc.array(dims=['cal'], values=[3.0, -1.0, 0.0, 2.5], variances=[0.1, 0.0, 0.2, 0.1]),
+                             coords={'power': sc.array(dims=['cal'], values=[2, 0, 1, 0])}))
+        return lambda: P.cif.CIF('a').with_powder_calibration(cal).save(io.StringIO())
+
+    @case('SqwBuilder.create', 'vectors-not-normalised-angles-beyond-turn')
+    def _(P, A, O, rng):
+        S = P.sqw
+        npx = 5
+        exps = O([S.SqwIXExperiment(
+            run_id=r, efix=A(_s(1.5 + r, 'meV')), emode=S.EnergyMode.direct,
+            en=A(_arr([4.0, -1.0, 2.5], 'meV', dim='energy_transfer')),
+            psi=A(_s(7.0, 'rad')), u=A(_vec([0.0, 30.0, 0.5], 'one')), v=A(_vec([1e-3, 1e-3, 0.0], 'one')),
+            omega=A(_s(-0.1, 'rad')), dpsi=A(_s(400.0, 'deg')), gl=A(_s(-7.0, 'rad')), gs=A(_s(0.0, 'rad')),
+            filename=f'run{r}.nxspe', filepath='/data') for r in range(2)])
+        pix = A(sc.DataArray(
+            sc.array(dims=['obs'], values=rng.normal(size=npx), variances=rng.random(npx), unit='count'),
+            coords={**{f'u{i}': _arr(rng.normal(size=npx) * far, '1/angstrom', dim='obs') for i in (1, 2, 3)},
+                    'u4': _arr(unsorted(rng, -5, 5), 'meV', dim='obs'),
+                    **{k: sc.array(dims=['obs'], values=(np.arange(npx)[::-1]) % 2, unit=None, dtype='int64')
+                       for k in ('idet', 'irun', 'ien')}}))
+        sample = O(S.SqwIXSample(name='s', lattice_spacing=A(_vec([4.0, 2.0, 3.0], 'angstrom')),
+                                 lattice_angle=A(_vec([np.pi / 2, 2.0, 1.0], 'rad'))))
+
+        def build():
+            b = S.Sqw.build(io.BytesIO(), byteorder='big')
+            b.add_pixel_data(pix, experiments=exps).add_default_sample(sample).create()
+        return build
+
+    # ------------------------------------------------------------ convert / beamline components
+    def beamline_da(rng, tof, scale=1.0, unit='m', gravity=None):
+        nn = len(far)
+        coords = {'tof': tof,
+                  'position': _vecs(_scaled_rows(rng, far) * scale + [0.1, 0.2, 0.3], unit),
+                  'source_position': _vec(np.array([0.1, 0.2, -25.0]) * scale, unit),
+                  'sample_position': _vec(np.array([0.1, 0.2, 0.3]) * scale, unit)}
+        if gravity is not None:
+            coords['gravity'] = _vec(gravity, 'm/s^2')
+        return sc.DataArray(sc.ones(dims=['x', 'tof'], shape=[nn, tof.sizes['tof']]), coords=coords)
+
+    tofs = {
+        'tof-unsorted-zero-negative': lambda: _arr([9e3, 0.0, -5.0, 2e3], 'us', dim='tof'),
+        'tof-descending-edges': lambda: _arr([9e3, 7e3, 4e3, 2e3, 1e3], 'us', dim='tof'),
+    }
+    for facet, mk in tofs.items():
+        for tgt in ('wavelength', 'dspacing', 'Q', 'energy'):
+            @case(f'convert[{tgt}]', facet + ',positions-far-off-origin')
+            def _(P, A, O, rng, mk=mk, tgt=tgt):
+                da = A(beamline_da(rng, mk(), scale=1e3, unit='mm'))
+                return lambda: P.scn.convert(da, 'tof', tgt, scatter=True)
+
+    for fname in ('position', 'source_position', 'sample_position', 'incident_beam', 'scattered_beam', 'L1', 'L2',
+                  'two_theta'):
+        @case(f'scn.{fname}', 'positions-far-off-origin')
+        def _(P, A, O, rng, fname=fname):
+            da = A(beamline_da(rng, tofs['tof-unsorted-zero-negative']()))
+            return lambda: getattr(P.scn, fname)(da)
+
+    @case('scn.Ltotal', 'positions-far-off-origin')
+    def _(P, A, O, rng):
+        da = A(beamline_da(rng, tofs['tof-unsorted-zero-negative']()))
+        return lambda: (P.scn.Ltotal(da, scatter=True), P.scn.Ltotal(da, scatter=False))
+
+    for facet, gv in gravities.items():
+        @case('transform_coords[gravity graph]', facet)
+        def _(P, A, O, rng, gv=gv):
+            tof = _arr([9e3, 2e3, 4e3], 'us', dim='tof')
+            da = A(beamline_da(rng, tof, gravity=gv))
+            graph = {**P.GB.beamline(scatter=True), **P.GT.elastic_wavelength('tof'),
+                     'two_theta': lambda incident_beam, scattered_beam, wavelength, gravity:
+                         P.KB.scattering_angles_with_gravity(incident_beam, scattered_beam, wavelength, gravity)['two_theta']}
+            graph = O(graph)
+            return lambda: da.transform_coords(['two_theta'], graph=graph)
+
+    # ------------------------------------------------ values a clean-up step would touch: non-finite, zero, masked
+    nf = [np.nan, np.inf, -np.inf, 0.0, 3.0]
+    nf_rows = [[0.0, 0.0, 0.0], [np.nan, 1.0, 1.0], [np.inf, 0.0, 1.0], [0.0, -0.0, -1e-300], [1.0, 2.0, 3.0]]
+
+    @case('two_theta', 'zero-length-and-non-finite-beams')
+    def _(P, A, O, rng):
+        b1, b2 = A(_vec([0.0, 0.0, 25.0])), A(_vecs(nf_rows))
+        return lambda: (P.KB.two_theta(incident_beam=b1, scattered_beam=b2), P.KB.L2(scattered_beam=b2))
+
+    @case('two_theta', 'zero-length-incident-beam')
+    def _(P, A, O, rng):
+        b1, b2 = A(_vec([0.0, 0.0, 0.0])), A(_vecs(_scaled_rows(rng, far)))
+        return lambda: P.KB.two_theta(incident_beam=b1, scattered_beam=b2)
+
+    for fname in ('scattering_angles_with_gravity', 'scattering_angle_in_yz_plane'):
+        @case(fname, 'gravity-zero')
+        def _(P, A, O, rng, fname=fname):
+            kw = gravity_args(A, rng, [0.0, 0.0, 0.0])
+            return lambda: getattr(P.KB, fname)(**kw)
+
+        @case(fname, 'non-finite-wavelength-and-beams')
+        def _(P, A, O, rng, fname=fname):
+            kw = gravity_args(A, rng, g_std)
+            kw['wavelength'] = A(_arr(np.asarray(nf) * 1e-10, 'm'))
+            kw['scattered_beam'] = A(_vecs(nf_rows))
+            return lambda: getattr(P.KB, fname)(**kw)
+
+    @case('beam_aligned_unit_vectors', 'gravity-zero-or-non-finite')
+    def _(P, A, O, rng):
+        b, g = A(_vec([0.0, 0.0, 25.0])), A(_vecs([[0.0, 0.0, 0.0], [0.0, np.nan, 0.0], [0.0, -np.inf, 0.0]], 'm/s^2'))
+        return lambda: P.KB.beam_aligned_unit_vectors(incident_beam=b, gravity=g)
+
+    kernels_1d = {  # kernel -> its arguments (name, unit); each gets non-finite / zero values in the canonical unit
+        'wavelength_from_tof': [('tof', 'us'), ('Ltotal', 'm')],
+        'energy_from_tof': [('tof', 'us'), ('Ltotal', 'm')],
+        'dspacing_from_tof': [('tof', 'us'), ('Ltotal', 'm'), ('two_theta', 'rad')],
+        'energy_transfer_direct_from_tof': [('tof', 'us'), ('L1', 'm'), ('L2', 'm'), ('incident_energy', 'meV')],
+        'energy_transfer_indirect_from_tof': [('tof', 'us'), ('L1', 'm'), ('L2', 'm'), ('final_energy', 'meV')],
+        'energy_from_wavelength': [('wavelength', 'angstrom')],
+        'wavelength_from_energy': [('energy', 'meV')],
+        'Q_from_wavelength': [('wavelength', 'angstrom'), ('two_theta', 'rad')],
+        'wavelength_from_Q': [('Q', '1/angstrom'), ('two_theta', 'rad')],
+        'dspacing_from_wavelength': [('wavelength', 'angstrom'), ('two_theta', 'rad')],
+        'dspacing_from_energy': [('energy', 'meV'), ('two_theta', 'rad')],
+    }
+    for name, spec in kernels_1d.items():
+        for dt in ('float64', 'float32'):
+            @case(name, f'non-finite-and-zero[{dt}]')
+            def _(P, A, O, rng, name=name, spec=spec, dt=dt):
+                kw = {arg: A(_arr(rng.permutation(nf), unit, dtype=dt)) for arg, unit in spec}
+                return lambda: getattr(P.KT, name)(**kw)
+
+    @case('Q_elements_from_wavelength', 'zero-length-and-non-finite-beams')
+    def _(P, A, O, rng):
+        lam, b1, b2 = A(_arr(nf, 'angstrom')), A(_vec([0.0, 0.0, 0.0])), A(_vecs(nf_rows))
+        return lambda: P.KT.Q_elements_from_wavelength(wavelength=lam, incident_beam=b1, scattered_beam=b2)
+
+    @case('hkl_vec_from_Q_vec', 'singular-ub-matrix')
+    def _(P, A, O, rng):
+        q = A(_vecs(nf_rows, '1/angstrom'))
+        ub = A(sc.spatial.linear_transform(value=[[1.0, 2.0, 3.0], [2.0, 4.0, 6.0], [0.0, 0.0, 0.0]], unit='1/angstrom'))
+        rot = A(sc.spatial.rotations_from_rotvecs(_vec([0.0, 0.0, 0.0], 'rad')))
+        return lambda: P.KT.hkl_vec_from_Q_vec(Q_vec=q, ub_matrix=ub, sample_rotation=rot)
+
+    @case('propagate_times', 'non-finite-and-zero')
+    def _(P, A, O, rng):
+        t, w, d = A(_arr(nf, 's', dim='vertex')), A(_arr(nf[::-1], 'angstrom', dim='vertex')), A(_s(np.inf, 'm'))
+        return lambda: P.CC.propagate_times(t, w, d)
+
+    @case('Frame.chop', 'windows-non-finite')
+    def _(P, A, O, rng):
+        fr, ch = O(frame(P, A)), O(chopper(P, A, 8.0, 'm', [-np.inf, np.nan, 5e-3], [5e-3, 9e-3, np.inf]))
+        return lambda: fr.chop(ch)
+
+    @case('DiskChopper.time_offset_angle_at_beam', 'angle-non-finite')
+    def _(P, A, O, rng):
+        dc, ang = O(disk(P, A, *slit_sets['slits-unsorted'])), A(_arr(nf, 'rad', dim='slit'))
+        return lambda: dc.time_offset_angle_at_beam(angle=ang, n_repetitions=2)
+
+    @case('compute_transmission_map', 'beam-zero-length')
+    def _(P, A, O, rng):
+        return transmission(P, A, O, rng, beam=(0.0, 0.0, 0.0))
+
+    @case('compute_transmission_map', 'beam-non-finite')
+    def _(P, A, O, rng):
+        return transmission(P, A, O, rng, beam=(0.0, np.nan, np.inf))
+
+    @case('compute_transmission_map', 'detectors-and-wavelength-non-finite')
+    def _(P, A, O, rng):
+        return transmission(P, A, O, rng, beam=(0.0, 0.0, 25.0), det=_vecs(nf_rows, 'cm'),
+                            wl=_arr([np.nan, np.inf, 0.0, 2.0], 'angstrom', dim='wavelength'))
+
+    @case('Cylinder.beam_intersection', 'direction-zero-length-and-non-finite')
+    def _(P, A, O, rng):
+        cyl = O(cylinder(P, A, 'axis-not-normalised'))
+        start, direction = A(_vecs(_scaled_rows(rng, [1e-3, 0.1, 0.3, 5.0, 1e3]), 'cm')), A(_vecs(nf_rows, 'one'))
+        return lambda: cyl.beam_intersection(start, direction)
+
+    def masked(da, rng, nan_at=()):
+        d = da.dims[-1]
+        da = da.copy()
+        if nan_at:
+            vals = da.values
+            vals[..., list(nan_at)] = np.nan
+        da.masks['m'] = sc.array(dims=[d], values=rng.random(da.sizes[d]) < 0.2)
+        return da
+
+    @case('find_plateaus', 'data-with-nan-and-masks')
+    def _(P, A, O, rng):
+        sig, atol = A(masked(signal(rng, np.arange(50)), rng, nan_at=(3, 27))), A(_s(0.01, 'Hz/s'))
+        return lambda: P.filtering.find_plateaus(sig, atol=atol, min_n_points=3)
+
+    @case('fit_peaks', 'data-with-masks')
+    def _(P, A, O, rng):
+        da, e, w = A(masked(spectrum(rng), rng)), A(_arr([4.0, 6.5], 'angstrom')), A(_s(2.0, 'angstrom'))
+        return lambda: P.peaks.fit_peaks(da, peak_estimates=e, windows=w, background='linear', peak='gaussian')
+
+    @case('remove_peaks', 'data-with-masks-and-nan')
+    def _(P, A, O, rng):
+        da = spectrum(rng)
+        res = O(P.peaks.fit_peaks(da, peak_estimates=_arr([4.0, 6.5], 'angstrom'), windows=_s(2.0, 'angstrom'),
+                                  background='linear', peak='gaussian'))
+        nv = A(masked(sc.DataArray(sc.values(da.data), coords={'x': da.coords['x']}), rng, nan_at=(40, 41, 70)))
+        return lambda: P.peaks.remove_peaks(nv, res)
+
+    for tgt in ('wavelength', 'dspacing', 'Q', 'energy'):
+        @case(f'convert[{tgt}]', 'masks-and-non-finite-tof')
+        def _(P, A, O, rng, tgt=tgt):
+            da = A(masked(beamline_da(rng, _arr([np.nan, 0.0, np.inf, 2e3], 'us', dim='tof')), rng, nan_at=(1,)))
+            return lambda: P.scn.convert(da, 'tof', tgt, scatter=True)
+
+    @case('save_xye', 'nan-and-masks')
+    def _(P, A, O, rng):
+        da = A(masked(powder(rng), rng, nan_at=(2,)))
+        return lambda: P.save_xye(io.StringIO(), da)
+
+    @case('CIF.with_reduced_powder_data+save', 'nan-and-masks')
+    def _(P, A, O, rng):
+        da = A(masked(powder(rng), rng, nan_at=(2,)))
+        return lambda: P.cif.CIF('a').with_reduced_powder_data(da).save(io.StringIO())
+
+    return cases
+
+
+VALUE_CASES = _value_cases()
+VALUE_PARTS = 1
+LAYOUTS = ('plain', 'slice', 'strided')
+NONCANON = sorted({f'noncanon:{e}:{f}' for e, f, _ in VALUE_CASES})
+
+
+def value_grid(ctx, shard):
+    """Every computational entry point with arguments that are not in canonical form (see above)."""
+    import types
+
+    import scippneutron as scn
+    from scippneutron import peaks
+    from scippneutron.absorption import Cylinder, Material, compute_transmission_map
+    from scippneutron.atoms import ScatteringParams
+    from scippneutron.chopper import DiskChopper, extract_chopper_from_nexus, filtering
+    from scippneutron.conversion import beamline as KB
+    from scippneutron.conversion import tof as KT
+    from scippneutron.conversion.graph import beamline as GB
+    from scippneutron.conversion.graph import tof as GT
+    from scippneutron.io import cif, save_xye
+    from scippneutron.io import sqw
+    from scippneutron.tof import chopper_cascade as CC
+
+    P = types.SimpleNamespace(scn=scn, peaks=peaks, Cylinder=Cylinder, Material=Material,
+                              compute_transmission_map=compute_transmission_map, ScatteringParams=ScatteringParams,
+                              DiskChopper=DiskChopper, extract_chopper_from_nexus=extract_chopper_from_nexus,
+                              filtering=filtering, KB=KB, KT=KT, GB=GB, GT=GT, cif=cif, save_xye=save_xye, sqw=sqw, CC=CC)
+    origin = {'v': 'value_grid'}
+    mm = make_monitor(ctx, origin)
+    tr = Tracer()
+    part, nparts = shard.get('part', 0), shard.get('nparts', 1)
+    try:
+        with tr:
+            for rep in range(shard['reps']):
+                for k, (entry, facet, build) in enumerate(VALUE_CASES):
+                    if k % nparts != part:
+                        continue
+                    reached = False
+                    for li, layout in enumerate(LAYOUTS):
+                        rng = np.random.Generator(np.random.PCG64([shard['seed'], 9009, rep, k, li]))
+                        owned = []  # [object, fingerprint when the caller made it]
+
+                        def A(obj, layout=layout, owned=owned):
+                            arg, owner = _lay(layout, obj)
+                            owned.append((arg, fp(arg)))
+                            if owner is not None:
+                                owned.append((owner, fp(owner)))
+                            return arg
+
+                        def O(obj, owned=owned):  # noqa: E743
+                            owned.append((obj, fp(obj)))
+                            return obj
+
+                        label = f'{entry}[{facet},{layout}]'
+                        j0 = mm.judged
+                        try:
+                            # the preparation of a case uses the package, too (constructors, a fit to get results)
+                            thunk = build(P, A, O, rng)
+                        except Exception as e:  # noqa: BLE001
+                            ctx.count(f'noncanon case not built: {entry}:{facet}: {type(e).__name__}')
+                            thunk = None
+                        j1 = mm.judged
+                        if thunk is not None:
+                            try:
+                                thunk()
+                            except Exception as e:  # noqa: BLE001  (raising is allowed; writing while raising is not)
+                                ctx.count(f'noncanon case raised: {entry}:{facet}: {type(e).__name__}')
+                        changed = [o for o, was in owned if fp(o) != was]
+                        if changed:
+                            ctx.violation('owner_buffer_modified',
+                                          f'{label}: {len(changed)} caller-owned object(s) handed to the call (an '
+                                          'argument, or the buffer an argument is a slice of) changed',
+                                          {'label': label, 'workload': 'value_grid',
+                                           'changed': [describe(o) for o in changed[:3]]},
+                                          function=entry)
+                        ctx.event('noncanon_case')
+                        ctx.case(('noncanon', entry, facet, layout), n=max(1, mm.judged - j0))
+                        if thunk is not None and mm.judged > j1:
+                            reached = True
+                            ctx.hit('noncanon-layout:' + layout)
+                    if reached:
+                        ctx.hit(f'noncanon:{entry}:{facet}')
+        for qn in mm.reached:
+            ctx.classes.add('reached:' + qn)
+        ctx.event('mutation_monitor.judged_calls', mm.judged)
+        ctx.event('mutation_monitor.observed_calls', mm.events)
+        ctx.extra['functions_armed'] = len(mm.functions)
+        ctx.extra['value_grid_cases'] = len(VALUE_CASES)
     finally:
         mm.uninstall()
 
@@ -753,6 +1793,8 @@ def pytest_shard(ctx, shard):
 # ================================================================ driver ===
 def plan(tier, seed):
     shards = [{'kind': 'alias', 'reps': 1 if tier == 'quick' else 4}]
+    for part in range(VALUE_PARTS):
+        shards.append({'kind': 'values', 'reps': 1 if tier == 'quick' else 3, 'part': part, 'nparts': VALUE_PARTS})
     for m in REUSE:
         shards.append({'kind': 'reuse', 'module': m, 'n_sub': 1 if tier == 'quick' else 3})
     for fam in HISTORY_FAMILIES:
@@ -771,13 +1813,16 @@ def plan(tier, seed):
 
 def requirements(tier):
     return {'events': {'mutation_monitor.judged_calls': 5000, 'alias_case': 100, 'history_sequence': 1000,
-                       'history_sequence_with_mutation': 200}}
+                       'history_sequence_with_mutation': 200, 'noncanon_case': len(LAYOUTS) * len(VALUE_CASES)},
+            'forced': [*NONCANON, *('noncanon-layout:' + x for x in LAYOUTS)]}
 
 
 def run(shard, ctx):
     t0 = time.time()
     if shard['kind'] == 'alias':
         alias_grid(ctx, shard)
+    elif shard['kind'] == 'values':
+        value_grid(ctx, shard)
     elif shard['kind'] == 'reuse':
         reuse_shard(ctx, shard)
     elif shard['kind'] == 'history':
@@ -794,7 +1839,8 @@ TECHNIQUE = ('universal argument-mutation monitor (sys.monitoring on every code 
              'history checker over call/mutate sequences of length <= 3 against pristine references')
 LEVEL_TEXT = ('exploration with an exhaustive part: (A) every call that crosses the package boundary in the hostile '
               'workloads of all other properties, in a dedicated aliasing grid (arguments already in the converted-to '
-              'unit/dtype, slices of caller-owned buffers) and, in the thorough tier, in the repository test-suite, has '
+              'unit/dtype, slices of caller-owned buffers), in a value grid (arguments not in the canonical form the '
+              'code normalises to: a forced class per entry point and facet, three buffer layouts) and, in the thorough tier, in the repository test-suite, has '
               'all its argument objects fingerprinted bit-exactly before and after; (B) for graph factories, table '
               'lookups, model and CIF builder combinators all call/mutate histories up to length 3 (thorough; 2 for the '
               'large graph family in quick) are enumerated and every factory must keep returning its pristine value.')
